@@ -41,14 +41,18 @@ func init() {
 	reg(&Spec{
 		ID: "C11",
 		Quick: func(l *loaded) []Inst {
-			out := []Inst{{Pkg: "cemi", Fn: "HarnessC11Helpers", Note: "helpers over full 8-bit domains"}}
+			out := []Inst{{Pkg: "cemi", Fn: "HarnessC11Helpers"}}
 			for kind := int64(0); kind < 3; kind++ {
-				for _, il := range []int64{0, 1, 255} {
-					for _, dl := range []int64{1, 2, 15, 16, 254} {
-						out = append(out, Inst{Pkg: "cemi", Fn: "HarnessC11Pack", Args: []int64{kind, il, dl, 0}},
-							Inst{Pkg: "cemi", Fn: "HarnessC11Unpack", Args: []int64{kind, il, dl, 0}})
-					}
-					out = append(out, Inst{Pkg: "cemi", Fn: "HarnessC11Pack", Args: []int64{kind, il, 0, 1}},
+				for dl := int64(1); dl <= 254; dl++ {
+					il := []int64{0, 1, 7, 255}[dl%4]
+					out = append(out, Inst{Pkg: "cemi", Fn: "HarnessC11Pack", Args: []int64{kind, il, dl, 0}},
+						Inst{Pkg: "cemi", Fn: "HarnessC11Unpack", Args: []int64{kind, il, dl, 0}})
+				}
+				for il := int64(0); il <= 255; il++ {
+					dl := []int64{1, 2, 16}[il%3]
+					out = append(out, Inst{Pkg: "cemi", Fn: "HarnessC11Pack", Args: []int64{kind, il, dl, 0}},
+						Inst{Pkg: "cemi", Fn: "HarnessC11Unpack", Args: []int64{kind, il, dl, 0}},
+						Inst{Pkg: "cemi", Fn: "HarnessC11Pack", Args: []int64{kind, il, 0, 1}},
 						Inst{Pkg: "cemi", Fn: "HarnessC11Unpack", Args: []int64{kind, il, 0, 1}})
 				}
 			}
@@ -73,7 +77,7 @@ func init() {
 			return out
 		},
 		Covers:  []string{"C11.helpers.end", "C11.pack.end", "C11.unpack.end"},
-		Bounds:  "quick: L_Data req/con/ind x info length {0,1,255} x payload length {1,2,15,16,254} + control units; thorough: every payload length 1..254 and every info length 0..255; all field values (both control octets, addresses, APCI, TPCI flags/sequence, payload and info bytes) symbolic; helpers over their complete 8-bit domains",
+		Bounds:  "both tiers: L_Data req/con/ind, every payload length 1..254 and every info length 0..255, control units; all field values (both control octets, addresses, APCI, TPCI flags/sequence, payload and info bytes) symbolic; helpers over their complete 8-bit domains",
 		Outside: "payload/info lengths not enumerated in the quick tier; unnumbered units with a non-zero sequence field; oversize parts (C15)",
 		Assume:  []string{"reference layout written from the cEMI specification text of the property (DESIGN B.2)"},
 	})
@@ -447,10 +451,10 @@ func init() {
 	}
 	reg(&Spec{
 		ID:       "C15",
-		Quick:    func(l *loaded) []Inst { return c15(false) },
+		Quick:    func(l *loaded) []Inst { return c15(true) }, // the full set takes a few seconds: both tiers run it
 		Thorough: func(l *loaded) []Inst { return c15(true) },
 		Covers:   []string{"C15.end", "C15.send.end", "C15.sendrouter.end", "C15.packseq.end"},
-		Bounds:   "every value shape of C02 (quick bounds) plus oversize parts: additional info and application data of {256,300} (thorough 255..600) bytes, empty application data, friendly names of {30,31} (thorough 29..80) characters and names with a rune beyond Latin-1, hardware addresses of 0 (the zero value), 5 and 8 bytes; buffer of exactly Size() bytes pre-filled with symbolic stale bytes, followed by 8 guard bytes; TunnelSocket.Send through a recording net.Conn and RouterSocket.Send through the WriteToUDP stub",
+		Bounds:   "every value shape of C02 (quick bounds) plus oversize parts: additional info and application data of 255..600 bytes, empty application data, friendly names of 29..80 characters and names with a rune beyond Latin-1, hardware addresses of 0 (the zero value), 5 and 8 bytes; buffer of exactly Size() bytes pre-filled with symbolic stale bytes, followed by 8 guard bytes; TunnelSocket.Send through a recording net.Conn and RouterSocket.Send through the WriteToUDP stub",
 		Outside:  "stale-independence is decided syntactically on the output terms (no output byte may mention a stale variable) and confirmed natively by re-running with different stale bytes",
 	})
 
@@ -538,7 +542,7 @@ func init() {
 					}
 				}
 				for late := int64(0); late < 2; late++ {
-					for _, k := range []int64{1, 2, 3} {
+					for _, k := range []int64{1, 2, 3, 4, 5} {
 						out = append(out, Inst{Pkg: "knx", Fn: "HarnessC04Stream", Args: []int64{k, tcp, late}, Note: "real process() goroutine, K requests"})
 					}
 				}
@@ -555,7 +559,7 @@ func init() {
 					}
 				}
 				for late := int64(0); late < 2; late++ {
-					for _, k := range []int64{1, 2, 3, 4, 5, 6} {
+					for _, k := range []int64{1, 2, 3, 4, 5, 6, 7} {
 						out = append(out, Inst{Pkg: "knx", Fn: "HarnessC04Stream", Args: []int64{k, tcp, late}})
 					}
 				}
@@ -564,13 +568,13 @@ func init() {
 			return out
 		},
 		Covers:  []string{"C04.delivered", "C04.reack", "C04.tcp.delivered", "C04.stream.accepted", "C04.stream.repeated", "C04.stream.end"},
-		Bounds:  "one real handleTunnelReq step from an arbitrary state: expected number, connection channel, request channel and sequence number all symbolic (all 256x256x256x256 combinations, wrap included), UDP/TCP, consumer waiting or arriving arbitrarily late, socket send failing or not, all interleavings with the parked delivery goroutine; plus the real process() goroutine of a fresh epoch fed with K<=3 (thorough 6) requests of symbolic channel/sequence, reader present from the start or arriving after the burst",
+		Bounds:  "one real handleTunnelReq step from an arbitrary state: expected number, connection channel, request channel and sequence number all symbolic (all 256x256x256x256 combinations, wrap included), UDP/TCP, consumer waiting or arriving arbitrarily late, socket send failing or not, all interleavings with the parked delivery goroutine; plus the real process() goroutine of a fresh epoch fed with K<=5 (thorough 7) requests of symbolic channel/sequence, reader present from the start or arriving after the burst",
 		Outside: "streams longer than K requests are covered by induction on the step only (the step harness starts from every counter value; process() carries no other state between iterations); delivery order (C17); reconnects inside one run (C09)",
 		Assume:  []string{"in-memory knxnet.Socket replaces the kernel"},
 	})
 	c03 := func(thorough bool) []Inst {
 		var out []Inst
-		ks := []int64{1, 2, 3}
+		ks := []int64{1, 2, 3, 4}
 		if thorough {
 			ks = []int64{1, 2, 3, 4, 5}
 		}
@@ -604,7 +608,7 @@ func init() {
 		Quick:    func(l *loaded) []Inst { return c03(false) },
 		Thorough: func(l *loaded) []Inst { return c03(true) },
 		Covers:   []string{"C03.matched", "C03.unmatched", "C03.tcp", "C03.sendfails", "C03.relay.delivered", "C03.connect.ok", "C03.connect.fails", "C03.two.end"},
-		Bounds:   "one real Send from an arbitrary state (sequence number and channel symbolic, so the 255->0 wrap is included) against an environment that K<=3 (thorough 5) times stays silent, lets a resend interval pass, offers an acknowledgement with symbolic sequence number and status, or closes the ack channel; two configurations (resend 2s/timeout 5s, 3s/7s) on the virtual clock; socket failing at the first or second transmission; TCP; handleTunnelRes offer window; requestConn outcomes; two concurrent senders against a gateway goroutine that acknowledges, loses or duplicates (context bound 2-3)",
+		Bounds:   "one real Send from an arbitrary state (sequence number and channel symbolic, so the 255->0 wrap is included) against an environment that K<=4 (thorough 5) times stays silent, lets a resend interval pass, offers an acknowledgement with symbolic sequence number and status, or closes the ack channel; two configurations (resend 2s/timeout 5s, 3s/7s) on the virtual clock; socket failing at the first or second transmission; TCP; handleTunnelRes offer window; requestConn outcomes; two concurrent senders against a gateway goroutine that acknowledges, loses or duplicates (context bound 2-3)",
 		Outside:  "3..8 concurrent senders and 600 Sends (one exchange from every counter value stands for any number of exchanges: requestTunnel keeps no other state between calls); real-time jitter: virtual time advances only when no goroutine can move",
 		Assume:   []string{"time.After/NewTicker/Stop are engine primitives on a virtual clock (timers never fire early, fire when nothing else can run)", "sync.Mutex: Unlock makes any waiter or newcomer eligible"},
 	})
@@ -659,9 +663,9 @@ func init() {
 
 	c14 := func(thorough bool) []Inst {
 		var out []Inst
-		rs := []int64{1, 2, 3}
+		rs := []int64{1, 2, 3, 4, 5}
 		if thorough {
-			rs = []int64{1, 2, 3, 4, 5}
+			rs = []int64{1, 2, 3, 4, 5, 6, 7}
 		}
 		for _, R := range rs {
 			for r := int64(0); r <= R; r++ {
@@ -676,7 +680,7 @@ func init() {
 		for r := int64(0); r <= 3; r++ {
 			out = append(out, Inst{Pkg: "knx", Fn: "HarnessC14Step", Args: []int64{32, r, 0}}, Inst{Pkg: "knx", Fn: "HarnessC14Step", Args: []int64{32, r, 2}})
 		}
-		ctx := 2
+		ctx := 3
 		if thorough {
 			ctx = 4
 		}
@@ -691,7 +695,7 @@ func init() {
 		Quick:    func(l *loaded) []Inst { return c14(false) },
 		Thorough: func(l *loaded) []Inst { return c14(true) },
 		Covers:   []string{"C14.step.sent", "C14.step.sendfail", "C14.lost.resent", "C14.lost.partial", "C14.run.end"},
-		Bounds:   "one real Send / resendLost step from every retained history of length r <= R for R in {1,2,3} (thorough ..5) and R = 32 with r <= 3 (messages are distinct objects), lost count fully symbolic (0..65535), transmission failing at a nondeterministic position; bounded runs of the real serve goroutine with senders, lost and busy indications, slow/absent reader and Close, a lost indication before, after and inside a busy period, context bound 2 (thorough 4)",
+		Bounds:   "one real Send / resendLost step from every retained history of length r <= R for R in 1..5 (thorough ..7) and R = 32 with r <= 3 (messages are distinct objects), lost count fully symbolic (0..65535), transmission failing at a nondeterministic position; bounded runs of the real serve goroutine with senders, lost and busy indications, slow/absent reader and Close, a lost indication before, after and inside a busy period, context bound 3 (thorough 4)",
 		Outside:  "retain counts 4..31 and 33..64, 300-send histories (covered by induction over the one-step harness: Send and resendLost keep no state but the list), a lost indication arriving while an earlier resend is still in progress (excluded by the property)",
 		Assume:   []string{"container/list is executed from its real SSA", "in the bounded runs math/rand.Float64 is one of {0, 0.5, 0.9999999}"},
 	})
@@ -729,7 +733,7 @@ func init() {
 
 	c09 := func(thorough bool) []Inst {
 		var out []Inst
-		ks := []int64{1, 2, 3}
+		ks := []int64{1, 2, 3, 4, 5}
 		if thorough {
 			ks = []int64{1, 2, 3, 4, 5, 6}
 		}
@@ -770,7 +774,7 @@ func init() {
 		Quick:    func(l *loaded) []Inst { return c09(false) },
 		Thorough: func(l *loaded) []Inst { return c09(true) },
 		Covers:   []string{"C09.cs.answered", "C09.cs.failed", "C09.dispatch.disconnect_request", "C09.dispatch.disconnect_response", "C09.dispatch.ignored", "C09.epoch.healthy", "C09.epoch.failed", "C09.epoch.alive", "C09.epoch.terminated", "C09.parked.end", "C09.across.end", "C09.traffic.end", "C09.relay.delivered"},
-		Bounds:   "one real connection-state exchange from an arbitrary channel against K<=3 (thorough 6) environment events (silence, resend interval passes, status with all 256 values symbolic, channel closed); the real process() dispatch on one frame of each kind with a symbolic channel; bounded runs of the real serve() goroutine against a gateway goroutine over two epochs: heartbeat interval shorter (3.3 s) and longer (7.3 s) than the 5.1 s response timeout, heartbeat answered / unanswered / error status (symbolic) / foreign channel / disconnect request / first one answered twice and none afterwards, reconnect accepted (new channel symbolic) / busy then accepted / refused (status symbolic) / unanswered; initial channel and send counter symbolic; telegrams parked for an absent reader across a reconnect; a Send waiting behind a pending Send while the gateway drops and re-establishes the connection (channel/counter pair must be consistent); heartbeats under steady inbound traffic; context bound 2 (thorough 4)",
+		Bounds:   "one real connection-state exchange from an arbitrary channel against K<=5 (thorough 6) environment events (silence, resend interval passes, status with all 256 values symbolic, channel closed); the real process() dispatch on one frame of each kind with a symbolic channel; bounded runs of the real serve() goroutine against a gateway goroutine over two epochs: heartbeat interval shorter (3.3 s) and longer (7.3 s) than the 5.1 s response timeout, heartbeat answered / unanswered / error status (symbolic) / foreign channel / disconnect request / first one answered twice and none afterwards, reconnect accepted (new channel symbolic) / busy then accepted / refused (status symbolic) / unanswered; initial channel and send counter symbolic; telegrams parked for an absent reader across a reconnect; a Send waiting behind a pending Send while the gateway drops and re-establishes the connection (channel/counter pair must be consistent); heartbeats under steady inbound traffic; context bound 2 (thorough 4)",
 		Outside:  "runs of 3..5 epochs (an epoch change is covered as such; serve() keeps no state across epochs but the Tunnel fields checked here); interval values other than the two configurations; real-time jitter",
 		Assume:   []string{"timers on the virtual clock; interval values chosen so that few timers expire at the same instant"},
 	})
@@ -911,10 +915,10 @@ func init() {
 	reg(&Spec{
 		ID:       "C20",
 		NoNative: true,
-		Quick:    func(l *loaded) []Inst { return c20(4) },
+		Quick:    func(l *loaded) []Inst { return c20(5) },
 		Thorough: func(l *loaded) []Inst { return c20(7) },
 		Covers:   []string{"C20.describe.answered", "C20.describe.timeout", "C20.discover.end"},
-		Bounds:   "real DescribeTunnel / DiscoverOnInterface (with the real TunnelSocket/RouterSocket methods) against an environment that offers 0..4 (thorough 7) frames, each a description response, a search response or another frame, each after a delay of 0, 2 or 4 s on the virtual clock (timeout 5 s), every interleaving of offer and timeout; one request written, carrying the host info of the socket's local address; socket closed exactly once",
+		Bounds:   "real DescribeTunnel / DiscoverOnInterface (with the real TunnelSocket/RouterSocket methods) against an environment that offers 0..5 (thorough 7) frames, each a description response, a search response or another frame, each after a delay of 0, 2 or 4 s on the virtual clock (timeout 5 s), every interleaving of offer and timeout; one request written, carrying the host info of the socket's local address; socket closed exactly once",
 		Outside:  "real sockets (Dial/Listen are redirected to environment functions), scheduling slack (virtual time advances only when no goroutine can move)",
 	})
 
